@@ -1,13 +1,17 @@
 """C18 — adding a signature stream keeps the compound file valid (lib/comdoc, lib/redblack, MSI digest)."""
-import os, subprocess
+import os, subprocess, sys
 from collections import Counter
+sys.path.insert(0, os.path.join(os.path.dirname(os.path.abspath(__file__)), "..", "models"))
+import msi as _msi
 
 import runner
 from runner import Broken, Finding, run_lines, split_tag, corpus_lines, load_known, GOENV, VH, DRIVER, NCPU
 
-TIE = "corr:redblack + validator:Spec.Cfb.validate"
+TIE = "corr:redblack + validator:Spec.Cfb.validate + corr:msi-digest"
 TIE_THEOREM = ("Relic.Props.C18.rb_insert_valid / rb_unfixed_plain (model Relic.Model.RedBlack vs lib/redblack: same tree "
-               "for the same insertion sequence); Relic.Spec.Cfb.validate evaluated on the bytes lib/comdoc wrote")
+               "for the same insertion sequence); Relic.Spec.Cfb.validate evaluated on the bytes lib/comdoc wrote; "
+               "Relic.Props.C18.tar_equals_direct / msi_digest_ignores_signature / sort_is_permutation / sort_total_no_panic_partial / sort_unique "
+               "(model Relic.Model.MsiDigest vs lib/authenticode msiverify.go, msitar.go on the same directory trees)")
 RULE = ("(a) red-black: every insertion order of 0..n-1 (n<=5 quick, <=7 thorough), ascending/descending runs of 8..64, seeded random "
         "sequences with duplicates (<=60 keys) inserted into the real redblack.Tree and into the Lean model (both colour policies); "
         "validity (black root, no red-red, equal black height, search order) evaluated on the implementation's dumped tree. "
@@ -21,21 +25,23 @@ RULE = ("(a) red-black: every insertion order of 0..n-1 (n<=5 quick, <=7 thoroug
         "name, metadata, bytes; touched names hold exactly the new bytes). (c) DigestMSI vs DigestMsiTar(MsiToTar) on input and output, "
         "plain and extended, and digest(out)=digest(in) when only signature streams changed. thorough adds a 7 MiB file whose 109 "
         "header FAT slots are full (DIFAT growth). Non-trivial = distinct rb op with >=3 keys, or distinct file x history whose input "
-        "is valid per the Lean predicate and on which the real code ran to completion (output judged), or a digest op.")
+        "is valid per the Lean predicate and on which the real code ran to completion (output judged), or a digest op. (d) " + _msi.RULE)
 ASSUMPTIONS = ["directory names in generated files use ASCII letters, U+0005 and MSI's 0x3800-0x4840 code units; the validator's "
                "upper-casing covers ASCII, Latin-1, Latin Extended-A, basic Greek and Cyrillic only",
                "Go string comparison of valid UTF-8 equals code-point order (used by the model of lessDirEnt)",
                "stream contents up to 9000 bytes (70000 in the DIFAT-growth case); files <= 40 KiB in the quick tier",
                "storages other than the root are never modified by relic (validated as preserved, not modelled)",
-               "SHA-256 stands for every crypto.Hash in the tar-vs-direct comparison (the code paths do not depend on the hash)"]
+               "SHA-256 stands for every crypto.Hash in the tar-vs-direct comparison (the code paths do not depend on the hash)"] + list(_msi.ASSUMPTIONS)
 TRUSTED = ["Relic.Spec.Cfb.validate is my reading of [MS-CFB] (strict: exact chain lengths, special FAT marks, no trailing free sector, "
            "unreached directory entries empty); it is executed natively on the output bytes, no theorem connects it to lib/comdoc's writer",
            "the harness' CFB writer only produces *inputs*; every input is itself judged by the Lean predicate and counted only if valid",
-           "model Relic.Model.RedBlack is hand-written; tied to lib/redblack by differential execution on every run"]
+           "model Relic.Model.RedBlack is hand-written; tied to lib/redblack by differential execution on every run"] + list(_msi.TRUSTED)
 UNPROVED = ["add_preserves_valid_full (validator on real output only; lib/comdoc's writer is not modelled: no alloc_fresh / frame lemma)",
             "order_is_mscfb_full (refuted for the unchanged lessDirEnt: order_differs_mixed_case)",
-            "msi_digest_ignores_signature_full (implementation-level oracle only)",
-            "tar_equals_direct_full (implementation-level oracle only)"]
+            "msi_digest_ignores_signature_full (over file bytes; proved over directory trees: msi_digest_ignores_signature, tied by the MSI ops)",
+            "tar_equals_direct_full / tar_equals_direct_tree_full (every input: refuted by tar_differs_encoded_signature_name; proved under "
+            "tarSafeB: tar_equals_direct)",
+            "sort_panics_iff_full (every list containing a trigger pair panics; proved: no trigger pair => no panic, and the comparator's exact trigger)"]
 IMPL_PARALLEL = 16
 
 
@@ -172,6 +178,8 @@ def run(ctx):
                 mops.append("C18 cfbv " + f[3])
         elif f[1] == "digest":
             mops.append("C18 cfbv " + f[3])
+        elif f[0] == "MSI":
+            mops.append(op)
         else:
             mops.append("C18 bad")
     model = run_lines([DRIVER], mops, parallel=NCPU)
@@ -193,9 +201,23 @@ def run(ctx):
     for op, il, ml in zip(ops, impl, model):
         mres, tag = split_tag(ml)
         f = op.split(" ")
-        kinds["C18 " + f[1]] += 1
+        kinds[f[0] + " " + f[1]] += 1
         new = op not in seen
         seen.add(op)
+        if f[0] == "MSI":
+            cm = _msi.canon_model(op, mres)
+            tags[_msi.branch(op, cm, tag)] += 1
+            if new and _msi.nontrivial(op, cm, tag):
+                nontriv += 1
+            bad = _msi.predicate("C18", op, il, cm, tag)
+            short = " ".join(x if len(x) < 200 else x[:80] + "…(%d)" % len(x) for x in il.split(" "))
+            if bad:
+                report("counterexample", bad[0], op, bad[1], short, bad[2], il, mres, tag)
+            elif not _msi.equiv(op, il, cm):
+                report("broken-tie", "Relic.Model.MsiDigest vs lib/authenticode (DigestMSI / MsiToTar / DigestMsiTar)", op,
+                       " ".join(x if len(x) < 200 else x[:80] + "…(%d)" % len(x) for x in cm.split(" ")), short,
+                       "model and implementation disagree on an MSI digest op", il, mres, tag)
+            continue
         if f[1] == "rb":
             nkeys = len(f) - 2
             v = tag_variant(mres, tag, il)
